@@ -21,6 +21,7 @@ pub fn profile_by_name(name: &str) -> Profile {
         "prune" => Profile::prune(),
         "scope" => Profile::scope(),
         "arrays" => Profile::arrays(),
+        "scope-arrays" => Profile::scope_arrays(),
         _ => Profile::general(),
     }
 }
@@ -59,9 +60,45 @@ pub fn tape_from_input(input: &J) -> Option<(Vec<u8>, String)> {
 
 pub const CASE_TIMEOUT: Duration = Duration::from_secs(20);
 
+/// Work budget (executed statements + loop iterations, counted by the `verif` hook) of every
+/// generated-program run: 15 x the reference interpreter's own step budget, so a program that R
+/// finishes can only exceed it by not stopping. Deterministic, unlike the wall-clock watchdog.
+pub const WORK_BUDGET: u64 = 3_000_000;
+
+pub fn is_work_budget(crash: &str) -> bool {
+    crash.contains("verif: work budget exceeded")
+}
+
 pub fn run_impl(source: &str, modes: &[Mode], log_stmts: bool) -> Vec<ModeResult> {
-    let opts: Vec<RunOpts> =
-        modes.iter().map(|m| RunOpts { log_stmts, ..RunOpts::new(*m) }).collect();
+    run_impl_budget(source, modes, log_stmts, WORK_BUDGET, &[])
+}
+
+/// Work allowed to the implementation for a program the reference interpreter finished in
+/// `steps` steps (R counts every statement, expression and iteration, so it over-counts).
+pub fn budget_for(steps: u64) -> u64 {
+    steps.saturating_mul(10).saturating_add(1_000).min(WORK_BUDGET)
+}
+
+/// `budget`: absolute cap for every mode. `baselines[i] = Some(b)`: mode i may do at most twice the
+/// work mode b (an earlier one) did, plus slack - skipping statements or reclaiming memory never
+/// adds work, so exceeding that means the run has stopped following the baseline.
+pub fn run_impl_budget(
+    source: &str,
+    modes: &[Mode],
+    log_stmts: bool,
+    budget: u64,
+    baselines: &[Option<usize>],
+) -> Vec<ModeResult> {
+    let opts: Vec<RunOpts> = modes
+        .iter()
+        .enumerate()
+        .map(|(i, m)| RunOpts {
+            log_stmts,
+            work_budget: Some(budget),
+            work_relative: baselines.get(i).copied().flatten().map(|b| (b, 2, 1_000)),
+            ..RunOpts::new(*m)
+        })
+        .collect();
     run_modes(source, &opts, CASE_TIMEOUT)
 }
 
@@ -240,6 +277,9 @@ pub fn classify_features(ctx: &mut ShardCtx, f: &Features) {
     c("returns a plain variable", f.returns_of_variable);
     c("has unused declaration", f.unused_decls);
     c("has read-then-clobber expression", f.clobber_patterns);
+    c("calls a function while a local namesake of a variable it writes is live", f.namesake_calls);
+    c("mutates a captured array in a function", f.captured_array_mutations);
+    c("mutates a captured array through a path (g[i].push ...)", f.captured_path_mutations);
     c("has ill-typed dynamic use in an unused declaration", f.illtyped_dead);
 }
 
